@@ -15,10 +15,6 @@ ALLOWED_AXIOMS = []
 IMPL_TIMEOUT = 20.0
 COQ_SHARD = 40
 
-DISABLED = ("work in progress: model, correspondence and oracle exist; the check reports the open finding "
-            "'nested-in-sequence-raw', which is not yet listed in KNOWN_FINDINGS.json (DESIGN.md section 8, C05)")
-SETUP_SKIP = True
-
 RULE = ("random data D (Atom | List | Map | Seq | Absent; nesting depth <= 5, container length 0-6, repeated map keys) "
         "generated top-down from a random grammar of the family E -> TOP [';'], TOP = ListProds / MapProds / "
         "ProdSequence / item symbol, with every option combination the constructors accept (brackets or none, "
@@ -195,7 +191,7 @@ def eff_list(spec):
 def gen_grammar(rng, force=None):
     """-> grammar dict; `force` may pin {"top": ..., "kind": ..., "combo": ...}"""
     force = force or {}
-    kind = force.get("kind") or rng.choice(["choice", "choice", "nullable", "nullable", "chain", "single", "choice2", "keep"])
+    kind = force.get("kind") or rng.choice(["choice", "choice", "nullable", "nullable", "chain", "single", "choice2", "keep", "chainnode"])
     top = force.get("top") or rng.choice(["list", "list", "list", "map", "seq", "value", "blist", "bmap", "optlist"])
     prods = []
     keep = []
@@ -209,6 +205,8 @@ def gen_grammar(rng, force=None):
     use_seq = rng.random() < 0.6
     if kind == "single":
         use_list = use_map = use_seq = False
+    if kind == "chainnode":
+        use_seq = True
     atoms = rng.sample(ATOMS, rng.randint(1, 3))
     if "WORD" not in atoms and rng.random() < 0.7:
         atoms[0] = "WORD"
@@ -231,6 +229,10 @@ def gen_grammar(rng, force=None):
         prods.append(["VALUE", {"t": "plain", "alts": [["V1"]]}])
         prods.append(["V1", {"t": "plain", "alts": [["V2"]]}])
         prods.append(["V2", {"t": "plain", "alts": alts}])
+    elif kind == "chainnode":
+        # a single-production chain that ends in an inner element with several children
+        prods.append(["VALUE", {"t": "plain", "alts": [["V1"]]}])
+        prods.append(["V1", {"t": "plain", "alts": [["SEQB"]]}])
     elif kind == "single":
         prods.append(["VALUE", {"t": "plain", "alts": [[atoms[0]]]}])
     elif kind == "choice2":
@@ -649,7 +651,7 @@ def gen_cases(rng, tier):
     # every list option combination as the top symbol, with every item kind
     forced = []
     for combo in LIST_COMBOS:
-        for kind in ("choice", "nullable", "chain", "single", "choice2", "keep"):
+        for kind in ("choice", "nullable", "chain", "single", "choice2", "keep", "chainnode"):
             if kind == "nullable" and not combo[1]:
                 continue
             forced.append({"top": "optlist" if combo[3] else ("list" if combo[0] else "blist"), "kind": kind, "combo": combo})
@@ -1027,8 +1029,20 @@ class _Oracle:
             got_keys = [k for k, _ in v[1]]
             if got_keys != [["s", k] for k, _ in want]:
                 return self.fail("map-keys", f"{path}: keys {[k for k, _ in want]} came back as {str(got_keys)[:120]}")
+            repeated = {k for k, _ in d["m"] if sum(1 for k2, _ in d["m"] if k2 == k) > 1}
             for (k, x), (_, di) in zip(v[1], want):
+                before = len(self.fails)
                 self.item(x, di, f"{path}{{{k[1]}}}", in_seq)
+                if k[1] in repeated and len(self.fails) > before:
+                    # does the entry carry an EARLIER value of the repeated key?
+                    earlier = [dv for kk, dv in d["m"] if kk == k[1]][:-1]
+                    for dv in earlier:
+                        sub = _Oracle(self.g)
+                        sub.item(x, dv, "", in_seq)
+                        if not sub.fails:
+                            del self.fails[before:]
+                            self.fail("map-repeated-key", f"{path}{{{k[1]}}}: the repeated key carries an earlier value, not its last one")
+                            break
             return
         if "s" in d:
             if v[0] != "l":
@@ -1069,13 +1083,8 @@ def oracle(case, obs):
     o.te(clean[1], case["d"], "", False)
     if obs.get("clean2") != clean and not o.fails:
         o.fail("cleanup-two-step-differs", "parse(do_cleanup=False) + cleanup() differs from parse()")
-    # one report per signature
-    seen, out = set(), []
-    for sig, msg in o.fails:
-        if sig not in seen:
-            seen.add(sig)
-            out.append((sig, msg))
-    return out
+    # the first difference (in source order) is the report: later ones are usually its consequences
+    return o.fails[:1]
 
 
 def _size(d):
@@ -1123,9 +1132,28 @@ def shrink_candidates(case):
         yield c
 
 
-TECHNIQUE = ("Coq proof (structural induction over derivation trees of the generated template productions) on a hand-written Gallina "
-             "model of the template classes and the default cleanup + per-run correspondence check (model run on the implementation's "
-             "raw trees with vm_compute) + constants regenerated from the source")
-LEVEL_TEXT = "work in progress"
-LEVEL_NOTE = "work in progress"
+TECHNIQUE = ("Coq proof (structural induction over derivation trees of the generated template productions and over the "
+             "denotation relation) on a hand-written Gallina model of the template classes, the in-parse sequence flattening and "
+             "the default cleanup + per-run correspondence check (the model cleans / flattens the implementation's own raw trees "
+             "with vm_compute; generated productions compared for every constructor-argument combination) + constants "
+             "regenerated from the source + independent oracle (equality with the generating data)")
+LEVEL_TEXT = ("Partial. Proved in Coq for ALL derivation trees (any length, any nesting depth) of the productions generated for "
+              "every option combination the constructors accept, about the model: list_denote (items of the template frontier in "
+              "source order; list_post = the trailing/single None special cases, list_post_plain, final_delimiter_through_empty_item, "
+              "final_delimiter_adds_nothing, list_empty_brackets, list_absent_optional, list_bracketless_empty, "
+              "list_option_combinations), final_delim_rejected, map_denote + map_dict_semantics (first position, last value), "
+              "map_empty_brackets, map_absent_optional, seq_denote (in-parse flattening), squash_item_partial, nested (containers in "
+              "containers through one-level choice items, to any depth, incl. containers as sequence elements for the repaired "
+              "cleanup: nested_in_sequence), source_shape (the current source does descend into sequences). Refuted and kept "
+              "visible: squash_item_refuted (a choice symbol below a choice symbol stays a tree element: by design of the "
+              "cleanup, the oracle accepts such wrappers), nested_in_sequence_refuted + sequence_elements_untouched_without_descent "
+              "(the cleanup before commit c9bcabb). NOT proved, only tested by correspondence/oracle: template_unambiguous_statement "
+              "(that the parse of rendered data is THE derivation denoting it), item symbols that are chains deeper than one level, "
+              "two-level choices or kept symbols, ordinary multi-child elements between containers (e.g. '(' SEQ ')'), keep_symbols, "
+              "AnyTokenExcept items, and everything before the raw tree (tokenizer, skipped text, parse loop: C01-C04).")
+LEVEL_NOTE = ("Trusted: Coq kernel + vm_compute; fidelity of the hand model (checked on ~1000 (quick) / ~11000 (thorough) generated "
+              "texts per run plus 139 constructor-argument combinations, not proved); python dict(); that the tree given to the cleanup "
+              "is the one parse(do_cleanup=False) returns; the ast extractor and the harness. The hypothesis `valid` of the theorems is "
+              "checked on every implementation tree of the run (VALID part of the observation). Print Assumptions: closed under the "
+              "global context for every theorem.")
 DESIGN_REF = "DESIGN.md section 8, C05"
